@@ -564,6 +564,9 @@ fn generate(a: &Args, r: &mut Rng) -> Vec<Case> {
 fn scaling_probe(rep: &mut Report, a: &Args) {
     let unit_by_fe: Vec<(&str, String)> = vec![
         ("plain", "This is a test of teh scaling, with 21th numbers and a URL https://a.b/c. ".into()),
+        ("plain", "This is test number {i} of teh scaling, with item{i} and a URL https://a.b/c{i}. ".into()),
+        ("plain", "word{i} and ".into()),
+        ("markdown", "- item {i} *one* with `code{i}` and [link {i}](http://x.y/{i})\n".into()),
         ("plain", "word ".into()),
         ("plain", "a.b.c.d.".into()),
         ("plain", "aaaaaaaaaa".into()),
@@ -586,9 +589,10 @@ fn scaling_probe(rep: &mut Report, a: &Args) {
         ("c:go", "// a comment\n//\n".into()),
         ("gitcommit", "Fix teh bug\n\n".into()),
     ];
-    let n0 = a.scale(40, 120);
+    let n0 = a.scale(64, 125);
     let mut table = vec![];
     let mut w = Worker::new();
+    let mut probe_no = 0usize;
     for (fe, unit) in unit_by_fe {
         let unit_len = unit.chars().count();
         let reps0 = (n0 * 8 / unit_len.max(1)).max(8);
@@ -597,9 +601,14 @@ fn scaling_probe(rep: &mut Report, a: &Args) {
         for _rep in 0..2 {
             let mut ts = vec![];
             for mult in [1usize, 2, 4] {
-                let text = unit.repeat(reps0 * mult);
+                // `{i}` in a unit is replaced by a running number, so that no two sentences are equal
+                // (LintGroup caches lints per chunk text)
+                let text: String = (0..reps0 * mult).map(|i| unit.replace("{i}", &(i * 7 + 13).to_string())).collect();
                 let c = Case { fe: fe.into(), text, cfg: "all".into(), dialect: 0, origin: "scaling".into() };
                 w.prepare(&c);
+                // a fresh configuration hash per measurement: nothing is answered from the cache of an earlier one
+                probe_no += 1;
+                w.group(0).config.set_rule_enabled(format!("__c01_scaling_probe_{probe_no}"), true);
                 let t0 = Instant::now();
                 let _ = w.run(&c);
                 ts.push(t0.elapsed().as_secs_f64().max(1e-6));
